@@ -400,6 +400,16 @@ def run_miri(ops, timeout=3600, env_extra=None):
 # --------------------------------------------------------------------------------------------
 # seeds, hashing
 # --------------------------------------------------------------------------------------------
+def load_factor(cap=6.0):
+    """how much slower than on an idle machine a time-budgeted phase must expect to run right now (1 = idle): 1-minute load average per
+    core, capped.  Checks whose floor is 'every unit was run' stretch their time budget by it, so that a busy machine makes them slower,
+    not inconclusive."""
+    try:
+        return max(1.0, min(cap, os.getloadavg()[0] / float(os.cpu_count() or 1)))
+    except (OSError, AttributeError):
+        return 1.0
+
+
 def get_seed():
     try:
         return int(os.environ.get("VERIF_SEED", "0"))
